@@ -114,6 +114,50 @@ Definition reverse_array_for (f : A -> A) (c : list A) : outcome (list A * list 
   let refs := refs_of c in
   ra_loop (S (length refs)) f c refs (length refs) r_end [].
 
+(* ---- the same adaptor object used more than once.  An adaptor holds iterators of the range (positions) or
+   the owned elements and nothing else: no counter, no "current" position, no cached result; each range-for
+   statement starts from begin() = position 0 / index 0 again.  The scenarios below are therefore plain
+   compositions of the loops above (read-only bodies: f i v = v) ---- *)
+Definition keep_e : nat -> A -> A := fun _ v => v.
+Definition keep_r : A -> A := fun v => v.
+
+(* auto e = enumerate(c); for (auto x : e) ...; for (auto x : e) ...; *)
+Definition enumerate_twice (c : list A) : outcome (list (nat * A) * list (nat * A)) :=
+  match enumerate_for keep_e c with
+  | Done (v1, c1) => match enumerate_for keep_e c1 with Done (v2, _) => Done (v1, v2) | OutOfFuel => OutOfFuel | BadDeref => BadDeref end
+  | OutOfFuel => OutOfFuel | BadDeref => BadDeref
+  end.
+Definition reverse_twice (c : list A) : outcome (list A * list A) :=
+  match reverse_for keep_r c with
+  | Done (v1, c1) => match reverse_for keep_r c1 with Done (v2, _) => Done (v1, v2) | OutOfFuel => OutOfFuel | BadDeref => BadDeref end
+  | OutOfFuel => OutOfFuel | BadDeref => BadDeref
+  end.
+
+(* for (auto x : enumerate(c)) for (auto y : enumerate(c)) ...  — the inner statement is run once per outer visit *)
+Definition enumerate_nested (c : list A) : outcome (list ((nat * A) * outcome (list (nat * A)))) :=
+  match enumerate_for keep_e c with
+  | Done (vs, c1) => Done (map (fun p => (p, enumerate_rvalue c1)) vs)
+  | OutOfFuel => OutOfFuel | BadDeref => BadDeref
+  end.
+Definition enumerate_reverse_nested (c : list A) : outcome (list ((nat * A) * outcome (list A))) :=
+  match enumerate_for keep_e c with
+  | Done (vs, c1) => Done (map (fun p => (p, reverse_rvalue c1)) vs)
+  | OutOfFuel => OutOfFuel | BadDeref => BadDeref
+  end.
+
+(* auto e = enumerate(c);  every element of c replaced in place by g of it (size unchanged);  for (auto x : e) ...
+   — the adaptor's begin/end were taken from the OLD c; positions stay valid because the size is unchanged *)
+Definition enumerate_after_modify (g : A -> A) (c : list A) : outcome (list (nat * A) * list A) :=
+  let b := e_begin in let e := e_end c in
+  e_loop (S (length c)) keep_e (map g c) b e [].
+Definition reverse_after_modify (g : A -> A) (c : list A) : outcome (list A * list A) :=
+  let b := r_begin c in
+  r_loop (S (length c)) keep_r (map g c) b r_end [].
+
+(* e.begin() != e.end(), asked for any number of times *)
+Definition enumerate_nonempty_test (c : list A) : bool := e_ne e_begin (e_end c).
+Definition reverse_nonempty_test (c : list A) : bool := negb (r_begin c =? r_end).
+
 End Iter.
 
 (* the expected observations, in list terms *)
